@@ -33,10 +33,29 @@ def _gen_callback(rng, n):
         yield f"c09.callback {where} {','.join(specs) if specs else '-'} {rng.randrange(2)} {rng.randrange(5)}"
 
 
+def _gen_revoked(rng, n):
+    """keys revoked by hand: the complete key line behind '# ' (h) or '#' (j) — also the offered key itself, alone or beside
+    live keys; through the plain check and through the whole callback"""
+    for _ in range(n):
+        offered = rng.randrange(4)
+        specs = [rng.choice(["h", "j"]) + str(offered if rng.random() < 0.7 else rng.randrange(4))]
+        for _ in range(rng.choice([0, 1, 2, 4])):
+            k = rng.choice(["k", "o", "x", "c", "b", "h", "j", "g"])
+            other = rng.choice([i for i in range(4) if i != offered] if rng.random() < 0.7 else [offered])
+            specs.append(k + (str(other) if k in "koxhj" else ""))
+        rng.shuffle(specs)
+        if rng.random() < 0.25:
+            yield f"c09.callback cache {','.join(specs)} {rng.randrange(2)} {offered}"
+        else:
+            yield f"c09.keys {','.join(specs)} {rng.randrange(2)} {offered}"
+
+
 def gen(rng, budget, tier):
     yield from _gen_main(rng, budget, tier)
     # added last: earlier streams keep their cases
     yield from _gen_callback(rng, 200 if tier == "quick" else 6000)
+    # seeded round 6: commented-out key lines
+    yield from _gen_revoked(rng, 200 if tier == "quick" else 4000)
 
 
 def _gen_main(rng, budget, tier):
